@@ -151,6 +151,26 @@ func init() {
 		c.setTuple(sumLen(plain), IfaceV{})
 		return nil, false
 	}
+	readAll := func(c *icall) ([]*State, bool) {
+		src := c.args[0].(IfaceV)
+		if sp, ok := src.V.(PtrV); ok && sp.Obj != 0 {
+			if o, ok := c.s.load(sp).(OpaqueObj); ok {
+				switch o.Kind {
+				case "gzip.Reader":
+					// (a truncated or corrupt stream would also yield the bytes inflated so far with an
+					// error; streams here are whole, see gzip.NewReader)
+					c.setTuple(c.w.bytesOfString(c.s, o.Data.(StrV)), IfaceV{})
+					return nil, false
+				case "bytes.Buffer":
+					c.setTuple(o.Data, IfaceV{})
+					return nil, false
+				}
+			}
+		}
+		return c.fallbackModel("ioutil_ReadAll")
+	}
+	I["io.ReadAll"] = readAll
+	I["io/ioutil.ReadAll"] = readAll
 	I["(*bytes.Buffer).Bytes"] = func(c *icall) ([]*State, bool) {
 		d, ok := c.w.bufData(c.s, c.args[0].(PtrV))
 		if !ok {
@@ -163,6 +183,100 @@ func init() {
 		data := c.w.bytesAsStr(c.s, c.args[1])
 		c.w.bufAppend(c.s, c.args[0].(PtrV), data)
 		c.setTuple(sumLen(data), IfaceV{})
+		return nil, false
+	}
+}
+
+// strings.Builder and the string-flavoured methods of bytes.Buffer: the content is one
+// string value attached to the object (a zero Builder / Buffer struct is the empty content).
+func (w *Worker) sbGet(s *State, p PtrV, kind string) StrV {
+	if p.Obj == 0 {
+		panic(goPanic{"nil " + kind})
+	}
+	switch o := s.load(p).(type) {
+	case OpaqueObj:
+		if o.Kind == "strings.Builder" {
+			return o.Data.(StrV)
+		}
+		if o.Kind == "bytes.Buffer" {
+			if sl, ok := o.Data.(SliceV); ok && sl.Obj != 0 {
+				return w.stringOfBytes(s, sl).(StrV)
+			}
+			return litStr("")
+		}
+	case StructV:
+		return litStr("")
+	}
+	panic(engineErr("unknown " + kind + " object"))
+}
+
+func (w *Worker) sbSet(s *State, p PtrV, kind string, v StrV) {
+	if kind == "bytes.Buffer" {
+		s.store(p, OpaqueObj{Kind: "bytes.Buffer", Data: w.bytesOfString(s, v)})
+		return
+	}
+	s.store(p, OpaqueObj{Kind: "strings.Builder", Data: v})
+}
+
+func init() {
+	I := intrinsics
+	for _, k := range []struct{ recv, kind string }{{"(*strings.Builder)", "strings.Builder"}, {"(*bytes.Buffer)", "bytes.Buffer"}} {
+		kind := k.kind
+		I[k.recv+".WriteString"] = func(c *icall) ([]*State, bool) {
+			p := c.args[0].(PtrV)
+			add := c.str(1)
+			c.w.sbSet(c.s, p, kind, strConcat(c.w.sbGet(c.s, p, kind), add))
+			c.setTuple(sumLen(add), IfaceV{})
+			return nil, false
+		}
+		I[k.recv+".WriteByte"] = func(c *icall) ([]*State, bool) {
+			p := c.args[0].(PtrV)
+			b := c.args[1].(IntV)
+			var add StrV
+			if b.C {
+				add = litStr(string([]byte{byte(b.N)}))
+			} else {
+				add = StrV{K: SChars, C: []string{b.T}}
+			}
+			c.w.sbSet(c.s, p, kind, strConcat(c.w.sbGet(c.s, p, kind), add))
+			c.set(IfaceV{})
+			return nil, false
+		}
+		I[k.recv+".WriteRune"] = func(c *icall) ([]*State, bool) {
+			p := c.args[0].(PtrV)
+			r := c.args[1].(IntV)
+			if !r.C {
+				panic(engineErr("WriteRune of a symbolic rune"))
+			}
+			add := litStr(string(rune(r.N)))
+			c.w.sbSet(c.s, p, kind, strConcat(c.w.sbGet(c.s, p, kind), add))
+			c.setTuple(mkInt(int64(len(add.S))), IfaceV{})
+			return nil, false
+		}
+		I[k.recv+".String"] = func(c *icall) ([]*State, bool) {
+			p := c.args[0].(PtrV)
+			if p.Obj == 0 && kind == "bytes.Buffer" {
+				c.set(litStr("<nil>"))
+				return nil, false
+			}
+			c.set(c.w.sbGet(c.s, p, kind))
+			return nil, false
+		}
+		I[k.recv+".Len"] = func(c *icall) ([]*State, bool) {
+			c.set(sumLen(c.w.sbGet(c.s, c.args[0].(PtrV), kind)))
+			return nil, false
+		}
+		I[k.recv+".Reset"] = func(c *icall) ([]*State, bool) {
+			c.w.sbSet(c.s, c.args[0].(PtrV), kind, litStr(""))
+			return nil, false
+		}
+		I[k.recv+".Grow"] = func(c *icall) ([]*State, bool) { return nil, false }
+	}
+	I["(*strings.Builder).Write"] = func(c *icall) ([]*State, bool) {
+		p := c.args[0].(PtrV)
+		add := c.w.bytesAsStr(c.s, c.args[1])
+		c.w.sbSet(c.s, p, "strings.Builder", strConcat(c.w.sbGet(c.s, p, "strings.Builder"), add))
+		c.setTuple(sumLen(add), IfaceV{})
 		return nil, false
 	}
 }
